@@ -149,6 +149,7 @@ func init() {
 		Key: func(w *World) string { w.Probe = offProbe(); return w.defaultKey() }})
 	RegisterSeq("c02.names", &SeqSpec{Prop: "C02", DiskSize: 3000, Alphabet: nameAlphabet(), After: c02After})
 	RegisterSeq("c02.ns", &SeqSpec{Prop: "C02", DiskSize: 3000, Alphabet: nsAlphabet(), After: c02After})
+	RegisterSeq("c02.ns.xdr", &SeqSpec{Prop: "C02", DiskSize: 3000, Alphabet: nsAlphabet(), After: c02After, ViaXDR: true})
 	RegisterSeq("c02.ns.nounstable", &SeqSpec{Prop: "C02", DiskSize: 3000, Alphabet: nsAlphabet(), After: c02After, NoUnstable: true})
 	Checks["C02"] = C02
 }
@@ -158,10 +159,11 @@ func C02(r *report.Report, tier string) {
 	if tier == "thorough" {
 		depth, offDepth, nameDepth = 6, 3, 3
 	}
-	r.Rule = fmt.Sprintf("breadth-first search over all operation sequences of length <=%d of a %d-symbol namespace/data alphabet on the real server (state = reference model + installed disk content + allocator cursors + inode cache, deduplicated); after every transition: the reply against the reference file system, an observation sweep (LOOKUP of every name incl. . and .., GETATTR, ACCESS, READ, READLINK, READDIR, READDIRPLUS, dead handles) and a full-tree dump comparison incl. handles; distinct_nontrivial = distinct states reached", depth, len(nsAlphabet()))
+	r.Rule = fmt.Sprintf("breadth-first search over all operation sequences of length <=%d of a %d-symbol namespace/data alphabet on the real server (state = reference model + installed disk content + allocator cursors + inode cache, deduplicated); after every transition: the reply against the reference file system, an observation sweep (LOOKUP of every name incl. . and .., GETATTR, ACCESS, READ, READLINK, READDIR, READDIRPLUS, dead handles) and a full-tree dump comparison incl. handles; the same alphabet once more with every request (incl. the sweep and the dump) XDR-encoded, dispatched by procedure number through the registration table and its reply XDR-decoded; distinct_nontrivial = distinct states reached", depth, len(nsAlphabet()))
 	s1 := RunSeq(r, "c02.ns", depth)
 	s2 := RunSeq(r, "c02.ns.nounstable", depth-1)
 	s3 := RunSeq(r, "c02.names", nameDepth)
 	s4 := RunSeq(r, "c02.off", offDepth)
-	r.Extra["searches"] = []*SeqSummary{s1, s2, s3, s4}
+	s5 := RunSeq(r, "c02.ns.xdr", depth-1)
+	r.Extra["searches"] = []*SeqSummary{s1, s2, s3, s4, s5}
 }
